@@ -3,6 +3,7 @@ package seq
 import (
 	"fmt"
 	"sort"
+	"strings"
 	"sync"
 
 	ipfslog "berty.tech/go-ipfs-log"
@@ -64,6 +65,11 @@ func policyFor(name string) *denyPolicy {
 
 func c06Config(name, policy, codec string) *seqx.Config {
 	cfg := &seqx.Config{Name: name, Writers: []int{0, 1}, PC: 4}
+	if policy == "allow-same-writer" {
+		// both replicas sign as the same identity: the entries being merged carry the destination's own key
+		cfg.Writers = []int{0, 0}
+		policy = "allow"
+	}
 	cfg.AC = func(r int) accesscontroller.Interface {
 		if r == 0 {
 			return policyFor(policy)
@@ -81,7 +87,7 @@ func c06Config(name, policy, codec string) *seqx.Config {
 
 var c06Cfgs = []struct{ name, policy, codec string }{
 	{"allow/default", "allow", "default"}, {"denyB/default", "denyB", "default"}, {"denyP3/default", "denyP3", "default"},
-	{"allow/linkkey", "allow", "linkkey"}, {"allow/pb", "allow", "pb"},
+	{"allow/linkkey", "allow", "linkkey"}, {"allow/pb", "allow", "pb"}, {"allow-same-writer/default", "allow-same-writer", "default"},
 }
 
 func init() {
@@ -93,7 +99,7 @@ func init() {
 
 func policyOf(cfgName string, replica int) *denyPolicy {
 	for _, c := range c06Cfgs {
-		if c.name == cfgName && replica == 0 {
+		if c.name == cfgName && replica == 0 && !strings.HasPrefix(c.policy, "allow") {
 			return policyFor(c.policy)
 		}
 	}
@@ -188,7 +194,7 @@ func c06Transition(p *run.Part) func(w *seqx.World, pre *seqx.Pre, op seqx.Op, s
 
 // ---- (B) tampered sources ----
 
-var c06Faults = []string{"sig-removed", "sig-of-other", "key-removed", "key-of-other-writer", "payload-altered", "foreign-id", "none"}
+var c06Faults = []string{"sig-removed", "sig-of-other", "key-removed", "key-of-other-writer", "key-of-destination", "payload-altered", "foreign-id", "none"}
 
 type c06Case struct {
 	Config string    `json:"config"`
@@ -236,6 +242,11 @@ func tamperOne(p *run.Part, cfg *seqx.Config, cc c06Case) {
 				c.SetKey(nil)
 			case "key-of-other-writer":
 				c.SetKey(world.IDs[2].PublicKey)
+			case "key-of-destination":
+				if string(e.GetKey()) == string(world.IDs[w.WriterOf[cc.Dst]].PublicKey) {
+					c.SetSig(nil) // already the destination's key: make it bad in another way
+				}
+				c.SetKey(world.IDs[w.WriterOf[cc.Dst]].PublicKey)
 			case "payload-altered":
 				c.SetPayload(append(append([]byte{}, e.GetPayload()...), '!'))
 			case "foreign-id":
@@ -357,7 +368,7 @@ func c06Searches(p *run.Part, tier string) []*seqx.Search {
 			d = depth
 		}
 		s := &seqx.Search{Part: p, Check: "policy", Cfg: cfg, Alphabet: alpha, Depth: d, Deadline: dl, OnTransition: c06Transition(p)}
-		if c.policy == "allow" {
+		if strings.HasPrefix(c.policy, "allow") {
 			s.OnState = c06Probe(p, cfg, seen)
 		}
 		ss = append(ss, s)
